@@ -378,8 +378,8 @@ def real_concat(c):
 
 
 # ------------------------------------------------------------------ extend / remap
-def gen_extend(r):
-    n = int(r.integers(1, 4))
+def gen_extend(r, n=None):
+    n = n or int(r.integers(1, 4))
     qs = list(r.permutation(5))[:2 * n]
     entries, used = [], 0
     for i in range(n):
@@ -535,14 +535,14 @@ def remap_corruptions(m):
 
 
 # ------------------------------------------------------------------ analysis functions
-def gen_analysis(r):
-    pc = bool(r.random() < 0.5)
+def gen_analysis(r, k=None):
+    pc = bool(r.random() < 0.5) if k is None else bool(k % 2)
     p = dict(ispulse=True, d=2, basis=0, c=[dict(op=0, id='c0')], n=[dict(op=0, id='n0', sens=1), dict(op=1, id='n1', sens=2)], dt=0,
              omega=(0 if pc or r.random() < 0.5 else None), cm=True, pc=pc)
-    ids = [None, ['n0'], ['n1', 'n0'], ['n1']][int(r.integers(0, 4))]
+    ids = [None, ['n0'], ['n1', 'n0'], ['n1']][int(r.integers(0, 4)) if k is None else (k // 2) % 4]
     n_idx = 2 if ids is None else len(ids)
     n_om = len(omega_tag(0))
-    shape = [[n_om], [n_idx, n_om], [n_idx, n_idx, n_om], [1, n_om]][int(r.integers(0, 4))]
+    shape = [[n_om], [n_idx, n_om], [n_idx, n_idx, n_om], [1, n_om]][int(r.integers(0, 4)) if k is None else k % 4]
     return dict(pulse=p, which='correlations' if pc and r.random() < 0.6 else 'total', ids=ids,
                 spectrum=dict(kind='ANdarray', shape=shape, herm=True), omega_kind='ANdarray', omega_len=n_om, omega_tag=0,
                 smallness=False, test_conv=False, omega_isdict=False, spacing='linear')
@@ -746,7 +746,7 @@ def collect_cases(ctx, thorough):
             for nm, doc, c, sig in ctor_extra(k):
                 col.case('constructor', nm, 'validate_ctor %s' % ctor_c(c), (lambda kk: (lambda: ff.PulseSequence(*real_ctor(kk, b))))(c), doc, c, sig)
     for b in range(n_base):
-        ps = gen_pulses(r)
+        ps = gen_pulses(r, m=1 + (b + 1) % 3)
         for kw in (dict(), dict(calc_ff=False), dict(omega_given=True, calc_pc=True)):
             c = concat_case(ps, **kw)
             col.case('concatenate', 'valid', 'validate_concat %s' % concat_c(c), real_concat(c), (), c)
@@ -763,7 +763,7 @@ def collect_cases(ctx, thorough):
                          (lambda q: (lambda: ff.pulse_sequence.concatenate_without_filter_function([real_pulse(p, 2 + i % 2) for i, p in enumerate(q)])))(cps),
                          doc, cps)
     for b in range(n_base):
-        x = gen_extend(r)
+        x = gen_extend(r, n=1 + b % 3)
         col.case('extend', 'valid', 'validate_extend %s' % extend_c(x), real_extend(x), (), x)
         for nm, doc, c in extend_corruptions(x):
             sig = {'mapping-unknown-identifier': 'c20-mapping-unknown-identifier-keyerror',
@@ -775,8 +775,8 @@ def collect_cases(ctx, thorough):
             sig = {'mapping-unknown-identifier': 'c20-mapping-unknown-identifier-keyerror',
                    'mapping-duplicate-identifiers': 'c20-mapping-duplicate-identifiers-accepted'}.get(nm)
             col.case('remap', nm, 'validate_remap %s' % remap_c(c), real_remap(c), doc, c, sig)
-    for b in range(n_base + 2):
-        a = gen_analysis(r)
+    for b in range(16 if thorough else 8):
+        a = gen_analysis(r, k=b)
         for fn, val in (('infidelity', 'validate_infidelity'), ('decay', 'validate_decay_amplitudes')):
             col.case(fn, 'valid', '%s %s' % (val, analysis_c(a)), real_analysis(a, fn), (), a)
             for nm, doc, c, sig in analysis_corruptions(a):
